@@ -142,7 +142,10 @@ def run_shard(spec):
         ls.bump('entries_' + kind)
         if kind == 'reset':
             # architecturally checkable part of TakeReset: mode, masks, execution state, NS, vector
-            want_pc = (0xFFFF0000 if (post['sctlr'] >> 13) & 1 else (post['vbar'] if cfg['have_security_ext'] else 0)) & ~1
+            # ResetControlRegisters() comes first: the (Secure) VBAR holds its reset value again, whatever it held and whatever
+            # SCR.NS was when the reset arrived, and the reset vector is taken from it
+            vbar_reset = int(cfg['reset_values'].get('VBAR', '0b0'), 2)
+            want_pc = (0xFFFF0000 if (post['sctlr'] >> 13) & 1 else (vbar_reset if cfg['have_security_ext'] else 0)) & ~1
             c = post['cpsr']
             bad = []
             if (c & 0x1F) != 0x13:
@@ -157,6 +160,8 @@ def run_shard(spec):
                 bad.append('SCR.NS')
             if post['PC'] != want_pc:
                 bad.append('vector')
+            if post['vbar'] != vbar_reset:
+                bad.append('VBAR')
             if bad:
                 ls.report('C11|reset|%s' % ','.join(bad), dict(desc, cpsr_after='%#x' % c, pc='%#x' % post['PC']), desc)
             continue
